@@ -344,7 +344,7 @@ pub fn worker_main(p: &dyn Property, a: WorkerArgs) -> i32 {
         }
         out_line(&format!("E {}", i));
         since_flush += 1;
-        if since_flush >= 500 || fatal || out.violation.is_some() {
+        if since_flush >= 100 || fatal || out.violation.is_some() {
             out_line(&format!("A {}", agg.to_json()));
             agg = Agg::default();
             since_flush = 0;
@@ -405,6 +405,9 @@ fn classify_death(status: std::process::ExitStatus, stdout: &str) -> (String, St
     use std::os::unix::process::ExitStatusExt;
     let xline = stdout.lines().rev().find(|l| l.starts_with("X ")).map(|s| s.to_string());
     if let Some(x) = &xline {
+        if x.contains("stack_overflow") {
+            return ("stack-overflow".into(), "thread overflowed its stack (the runtime aborted the process)".into());
+        }
         if x.contains("alloc_refused") {
             let kind = x.split_whitespace().nth(2).unwrap_or("?").to_string();
             return (
@@ -427,17 +430,29 @@ fn classify_death(status: std::process::ExitStatus, stdout: &str) -> (String, St
 pub fn exec_isolated(p: &dyn Property, case: &Value, tier: Tier) -> Iso {
     let mut cmd = child_cmd(p);
     cmd.arg("exec-case").arg(p.id()).arg("--tier").arg(tier.name());
-    cmd.stdin(Stdio::piped()).stdout(Stdio::piped()).stderr(Stdio::null());
+    cmd.stdin(Stdio::piped()).stdout(Stdio::piped()).stderr(Stdio::piped());
     let mut ch = match cmd.spawn() {
         Ok(c) => c,
         Err(e) => return Iso::Harness(format!("spawn: {}", e)),
     };
+    // stderr is drained on its own thread (only its tail matters: the runtime's last words)
+    let se = ch.stderr.take().unwrap();
+    let err_thread = std::thread::spawn(move || {
+        let mut buf = Vec::new();
+        let _ = std::io::Read::read_to_end(&mut { se }, &mut buf);
+        let tail = if buf.len() > 4096 { buf[buf.len() - 4096..].to_vec() } else { buf };
+        String::from_utf8_lossy(&tail).to_string()
+    });
     {
         let mut si = ch.stdin.take().unwrap();
         let _ = si.write_all(case.to_string().as_bytes());
     }
     let mut out = String::new();
     let _ = ch.stdout.take().unwrap().read_to_string(&mut out);
+    let errs = err_thread.join().unwrap_or_default();
+    if errs.contains("has overflowed its stack") {
+        out.push_str("\nX stack_overflow\n");
+    }
     let st = match ch.wait() {
         Ok(s) => s,
         Err(e) => return Iso::Harness(format!("wait: {}", e)),
@@ -808,13 +823,46 @@ pub fn check_main(p: &dyn Property, a: CheckArgs) -> i32 {
 
     // ---- triage: dedup by class, replay, minimise, report
     let known = load_known_findings();
+    let mut harness_trouble = false;
+    // A worker that died mid-case could only tell us its exit status. Re-run such cases in an
+    // isolated child first: that run (with stderr captured) names the authoritative class.
+    let mut resolved: Vec<RawViolation> = vec![];
+    let mut deaths_resolved = 0;
+    for v in res.raw.iter() {
+        if !v.case.is_null() {
+            resolved.push(RawViolation { index: v.index, case_seed: v.case_seed, case: v.case.clone(), class: v.class.clone(), detail: v.detail.clone() });
+            continue;
+        }
+        if deaths_resolved >= 24 {
+            continue;
+        }
+        deaths_resolved += 1;
+        match gen_isolated(p, v.case_seed, a.tier) {
+            Some(case) => {
+                let r = exec_isolated(p, &case, a.tier);
+                match r.class() {
+                    Some(c) => resolved.push(RawViolation { index: v.index, case_seed: v.case_seed, case, class: c, detail: r.detail() }),
+                    None => {
+                        eprintln!(
+                            "HARNESS-ERROR property={} worker died in case_seed={} ({}), but the case ran clean in a fresh process ({}) — not reported as a violation",
+                            p.id(), v.case_seed, v.class, r.detail()
+                        );
+                        harness_trouble = true;
+                    }
+                }
+            }
+            None => {
+                eprintln!("HARNESS-ERROR property={} could not regenerate case_seed={}", p.id(), v.case_seed);
+                harness_trouble = true;
+            }
+        }
+    }
     let mut by_class: BTreeMap<String, Vec<&RawViolation>> = BTreeMap::new();
-    for v in &res.raw {
+    for v in &resolved {
         by_class.entry(v.class.clone()).or_default().push(v);
     }
     let mut violations = 0;
     let mut known_hit: BTreeSet<String> = BTreeSet::new();
-    let mut harness_trouble = false;
     let replay_dir = verif_root().join("replay");
     let _ = std::fs::create_dir_all(&replay_dir);
     let mut minimised = 0;
@@ -847,6 +895,16 @@ pub fn check_main(p: &dyn Property, a: CheckArgs) -> i32 {
             v.case.clone()
         };
         let first = exec_isolated(p, &case, a.tier);
+        if class == "hang" && first.class().is_none() {
+            // CPU time is the one oracle that is not a pure function of the seed (it grows under
+            // memory-bandwidth contention between workers). A hang verdict that the same case does
+            // not earn when run alone is load, not a violation and not a harness defect.
+            eprintln!(
+                "[simcheck] WARNING property={} case_seed={} exceeded the CPU limit in a loaded worker but completes in a fresh process — counted as slow-under-load",
+                p.id(), v.case_seed
+            );
+            continue;
+        }
         if first.class().as_deref() != Some(class.as_str()) {
             eprintln!(
                 "HARNESS-ERROR property={} violation class {:?} (case_seed={}) did not reproduce in a fresh process (got {:?}: {}) — not reported as a violation",
